@@ -778,6 +778,69 @@ def replay_renamed(chk, c):
     sys.exit(0)
 
 
+# ----------------------------------------------------------------------------- users-for-permission under deny-override
+DENY_MODEL = ("[request_definition]\nr = sub, obj, act\n\n[policy_definition]\np = sub, obj, act, eft\n\n[role_definition]\ng = _, _\n\n"
+              "[policy_effect]\ne = some(where (p.eft == allow)) && !some(where (p.eft == deny))\n\n"
+              "[matchers]\nm = g(r.sub, p.sub) && r.obj == p.obj && r.act == p.act\n")
+
+
+def deny_users_check(prules, grules):
+    """get_implicit_users_for_permission on an RBAC model with deny-override: exactly the non-role subjects that enforce allows
+    (implementation level: the clause is on the enforcer's own answers).  Returns None or (query, answer, what)."""
+    m = casbin.Model()
+    m.load_model_from_text(DENY_MODEL)
+    e = casbin.Enforcer(m)
+    e.add_policies([list(r) for r in prules])
+    e.add_grouping_policies([list(r) for r in grules])
+    roles = {r[1] for r in grules}
+    subjects = []
+    for x in [r[0] for r in grules] + [r[0] for r in prules]:
+        if x not in subjects and x not in roles:
+            subjects.append(x)
+    for o, a in sorted({(r[1], r[2]) for r in prules}):
+        try:
+            got = e.get_implicit_users_for_permission(o, a)
+        except Exception as exc:  # noqa
+            return (["get_implicit_users_for_permission", o, a], repr(exc)[:200], "the query raised on a well-formed policy")
+        want = [u for u in subjects if e.enforce(u, o, a)]
+        if len(got) != len(set(got)) or sorted(got) != sorted(want):
+            return (["get_implicit_users_for_permission", o, a], got,
+                    "get_implicit_users_for_permission is not exactly the non-role subjects that enforce allows (deny-override model)")
+    return None
+
+
+def run_deny_users(chk, n, strata):
+    rng = chk.rng
+    subs, roles, objs, acts = ["alice", "bob", "carol"], ["admin", "editor"], ["data1", "data2"], ["read", "write"]
+    cnt = 0
+    for i in range(n):
+        g = sorted({(rng.choice(subs + roles), rng.choice(roles)) for _ in range(rng.randint(0, 4))})
+        g = [x for x in g if x[0] != x[1]]
+        pr = sorted({(rng.choice(subs + roles), rng.choice(objs), rng.choice(acts), rng.choice(["allow", "allow", "deny"]))
+                     for _ in range(rng.randint(1, 6))})
+        cnt += 1
+        chk.traces += 1
+        bad = deny_users_check(pr, g)
+        if bad:
+            chk.spec_fail(dict(layout="deny-users", stratum="deny-override-users-for-permission",
+                               p_rules=[list(r) for r in pr], g_rules=[list(r) for r in g]),
+                          dict(query=bad[0], answer=bad[1]), "see 'what'", bad[2], None)
+            break
+    strata["deny_override_users_for_permission"] = cnt
+
+
+def replay_deny_users(chk, c):
+    import sys
+    bad = deny_users_check([tuple(r) for r in c["p_rules"]], [tuple(r) for r in c["g_rules"]])
+    print("replay: RBAC model with deny-override; rules:", c["p_rules"], c["g_rules"])
+    if bad:
+        print("  violated:", bad[2], "at", bad[0], "answer", bad[1])
+        print(f"VIOLATION property={chk.prop} replay={chk.replay_file}")
+        sys.exit(1)
+    print("replay passes: get_implicit_users_for_permission agrees with enforce on this policy")
+    sys.exit(0)
+
+
 def run(chk, n_random, max_g, max_p, cap, n_deep, n_conf):
     rng = chk.rng
     strata = chk.extra.setdefault("strata", {})
@@ -816,6 +879,7 @@ def run(chk, n_random, max_g, max_p, cap, n_deep, n_conf):
         strata[f"random_{kn}"] = len(cases)
     run_configured(chk, n_conf, strata)          # last: the random streams of the strata above stay as they were
     run_renamed(chk, max(40, n_conf), strata)
+    run_deny_users(chk, max(60, n_conf), strata)
     return full_cover
 
 
@@ -857,7 +921,8 @@ def main():
     chk.rule += ("; (8) a domains model whose policy definition calls the domain column tenant / domain / org (real Enforcer, "
                  "implementation level): get_permissions_for_user_in_domain is exactly the user's rules of that domain, every "
                  "permission of get_implicit_permissions_for_user(user, domain) is allowed by enforce there, and every allowed "
-                 "request is accounted for")
+                 "request is accounted for; (9) an RBAC model with deny-override (real Enforcer, implementation level): "
+                 "get_implicit_users_for_permission is exactly the non-role subjects that enforce allows")
     chk.build(translators=["rbacapi", "implroles", "implusers", "implresource", "implperms"], oracle_name="Mgmt")
     if chk.replay_file:
         import json
@@ -866,6 +931,8 @@ def main():
             return replay_conf(chk)
         if c.get("layout") == "renamed-domain-column":
             return replay_renamed(chk, c)
+        if c.get("layout") == "deny-users":
+            return replay_deny_users(chk, c)
         if c.get("layout") == "blocks":
             if not c.get("model_compared"):
                 chk.oracle = None            # out-of-band store edits are outside the Mgmt model
